@@ -85,6 +85,8 @@ def convert_chunks(source_url, dest_url, copy_info=False,
         convert_chunks_for_scale(chunk_reader,
                                  dest_info, chunk_writer, scale_index,
                                  chunk_transformer)
+    # Flush buffered writes now (sharded accessor), so that errors are reported
+    dest_accessor.close()
 
 
 def parse_command_line(argv):
